@@ -317,7 +317,7 @@ def worker(job):
         cases = []
         if tid in G.ALL_TEMPLATES:
             _, rty, tmpl = G.ALL_TEMPLATES[tid]
-            res = rnd.choice([0, 1, 2]) if "f" in opcases.slots(tmpl) or "c" in opcases.slots(tmpl) else 0
+            res = rnd.choice([0, 1, 2]) if "f" in opcases.slots(tmpl) or "c" in opcases.slots(tmpl) or "Fxp" in tmpl else 0
             res = min(res, max(0, bl - 1))
             if item["exhaustive"]:
                 allc = list(opcases.enumerate_cases(tid, tmpl, rty, bl, res, rnd, cap=20000))
@@ -354,6 +354,8 @@ def judge(R, c, p, N, capture, solve, maxleaves=60000):
     if not cap.cons and not cap.unknowns:
         R.count("linear_no_unknowns")
         R.case(nontrivial=False)
+        if cap.result_lcs and len(cap.honest) == 1:
+            forced_outcome_is_the_honest_one(R, c, cap, p)      # no choice at all: the one outcome must be the honest one
         return None
     res = solve.solve(cap.cons, cap.fixed, p, cap.result_lcs, maxleaves=maxleaves)
     if getattr(c, "bool_only", False):
@@ -392,11 +394,43 @@ def judge(R, c, p, N, capture, solve, maxleaves=60000):
             for k, hv in zip(cap.kinds, cap.honest):
                 if k == "LinCombBool" and hv not in (0, 1):
                     R.violation("boolean-result-not-0-1", "boolean-typed result %s" % hv, case=c.describe(), p=p)
+        forced_outcome_is_the_honest_one(R, c, cap, p)
         return v
     mech, what = classify(c, cap, res, v, p)
     R.violation(mech, what, case=c.describe(), pre_src=c.pre_src, op_src=c.op_src, p=p, honest=cap.honest,
                 other=[list(x) for x in sorted(res.values)[:4]], free=[[list(f[0]), list(f[1])] for f in res.free[:1]])
     return v
+
+
+def forced_outcome_is_the_honest_one(R, c, cap, p):
+    """'A prover cannot obtain a valid proof for a different comparison outcome ... selected value': for comparison,
+    test and selection templates the single outcome the constraints admit is compared with the outcome native Python computes on the plain
+    operand values (the reference twin).  Only where the twin raises no flag (operands inside the documented
+    domain) and for boolean outcomes - numeric results are C05's business, with its own domain rules."""
+    from vf.gen import prog as G
+    selection = c.tid.startswith(("ite", "if_else", "lc_if_else", "bifelse")) and len(cap.kinds) == 1
+    if c.tid not in G.ALL_TEMPLATES or not (selection or (getattr(c, "rty", None) == "b" and cap.kinds == ["LinCombBool"])):
+        return
+    if any(isinstance(x, int) and abs(x) > p // 4 for x in c.inputs):
+        return
+    try:
+        ref = G.run_ref(G.Prog(c.pre_src + c.op_src + "\n", [], c.bl, c.res), c.inputs, p=p)
+    except Exception:  # noqa
+        return
+    if ref.exc is not None or ref.flags or "r" not in ref.ns:
+        R.count("outcome_not_judged_twin_flags_or_refuses")
+        return
+    r = ref.ns["r"]
+    rv = r.v if hasattr(r, "v") else (r.r if hasattr(r, "r") else r)      # fixed point: the representation
+    if not isinstance(rv, (int, bool)) or (not selection and int(rv) not in (0, 1)) or abs(int(rv)) > p // 4:
+        return
+    if hasattr(r, "r") != (cap.kinds == ["LinCombFxp"]):
+        R.count("outcome_not_judged_result_class_differs")      # C14 judges result classes
+        return
+    R.count("forced_outcomes_compared_with_python")
+    if (cap.honest[0] - int(rv)) % p != 0:
+        R.violation("forced-outcome-differs-from-python:" + c.tid, "%s on %s: the constraints admit only the outcome %s, Python computes %s" % (
+            c.expr.replace("\n", "; "), c.inputs, cap.honest[0], int(rv)), case=c.describe(), pre_src=c.pre_src, op_src=c.op_src, p=p)
 
 
 def classify(c, cap, res, v, p):
